@@ -7,6 +7,7 @@ Import ListNotations.
 From ClapModel Require Import Base.Bytes Base.Machine.
 From ClapModel Require Import Parse.Cmd Parse.Build Parse.Valid Parse.Matcher Parse.Errors Parse.Validator Parse.Parser.
 From ClapModel Require Import ParseProofs.Relations.
+From ClapModel Require Import ParseProofs.Safe ParseProofs.Invariant ParseProofs.Totality ParseProofs.TotalityMain ParseProofs.IndexInv.
 Open Scope N_scope.
 
 (** (R4) presence is "the entry's source is not DefaultValue" -- what [check_explicit] tests *)
@@ -92,3 +93,22 @@ Theorem C03_nonvacuous :
              /\ check_explicit (mt st) i_g PIsPresent = true.
 Proof. exact sound_nonvacuous. Qed.
 Print Assumptions C03_nonvacuous.
+
+(** CLOSED FORM (the key-uniqueness hypothesis discharged by the parse-loop invariant,
+    ParseProofs/IndexInv.v): for every valid definition a user can write (class [plain]: no short
+    flag-subcommands) and every token list, a successful parse without error-ignoring reports the
+    validated root matcher (plus the copy of global values), and that matcher satisfies every
+    declared relation. *)
+Theorem C03_parse_sound : forall c0 toks m,
+  plain c0 = true -> valid c0 = true ->
+  do_parse c0 toks = OOk m -> is_set s_ignore_errors (build_self c0) = false ->
+  exists st, run_level c0 toks = ROk st /\ m = reported c0 st /\ Relations (build_self c0) (mt st).
+Proof. exact parse_relations. Qed.
+Print Assumptions C03_parse_sound.
+
+(** the same at every level of the recursion, any depth *)
+Theorem C03_level_sound_closed : forall fuel c toks st0 st,
+  tree_ok fuel c -> G c idx_inv st0 -> get_matches_with fuel c toks st0 = ROk st ->
+  Relations c (mt st).
+Proof. exact level_relations. Qed.
+Print Assumptions C03_level_sound_closed.
